@@ -607,6 +607,7 @@ func clRun(cfg *config, toks []string) string {
 			}
 			lat, lon, brg, dist, tol := num("Start.Latitude"), num("Start.Longitude"), num("Start.Bearing"), num("Start.Distance"), num("Tolerance")
 			if math.Abs(lat) < 80 && math.Abs(lon) <= 180 && dist > 0 && dist < 1000 && tol >= 0 && tol < 100 {
+				points = append(points, [2]float64{lat, lon}) // a reading at the start point itself
 				for _, fr := range []float64{0.35, -0.7, 0.9, 1.3, -1.6} {
 					var pla, plo float64
 					geodesic.WGS84.Direct(lat, lon, brg+90, fr*dist, &pla, &plo, nil)
@@ -915,6 +916,9 @@ func genCL(cfg *config, r *rng, i int, s *sink) string {
 	c, h := "~", "~"
 	if which != "none" && which != "missing" {
 		c = clGenConf(r, cmd, 1, s)
+		if r.chance(1, 12) {
+			c = pick(r, []string{"~", "root.verbose:i:" + hexStr("0"), "convert.unknownkey:s:" + hexStr("x")}) // a file that sets nothing (for this command)
+		}
 	}
 	if which == "both" {
 		h = clGenConf(r, cmd, 2, s)
@@ -1025,6 +1029,12 @@ func corpusCL(cfg *config) []string {
 		// a start date is a calendar day, whatever the user's time zone; a log with timed laps
 		"cl cmd=convert which=none F=start-date:d:" + hexStr("2022-06-10") + " C=~ H=~ io=fo tz=America/New_York in=" + hexStr(cvDecoy),
 		"cl cmd=convert which=none F=start-date:d:" + hexStr("2022-06-10") + ",vehicle:s:" + hexStr(" Cup Car ") + " C=~ H=~ io=so tz=Pacific/Auckland in=" + hexStr(cvDecoy),
+		// a config file found by the search that sets nothing: the options keep their built-in defaults
+		"cl cmd=convert which=cwd F=decoder:s:" + hexStr("trackaddict") + ",encoder:s:" + hexStr("laptimer") + " C=~ H=~ io=fo in=" + hexStr(cvDecoy),
+		"cl cmd=convert which=home F=~ C=~ H=~ io=fo in=" + hexStr(cvDecoy),
+		"cl cmd=gopro.laptimes which=cwd F=~ C=root.verbose:i:" + hexStr("0") + " H=~ io=ff in=" + hexStr("0.0000000,0.0000000;0.0000100,0.0000000"),
+		// the built-in start line (0, 0) with a reading exactly on it
+		"cl cmd=gopro.laptimes which=none F=~ C=~ H=~ io=ff in=" + hexStr("0.0000000,0.0000000;0.0000100,0.0000100"),
 		// the settings as a JSON document given with --config
 		"cl cmd=convert which=explicit F=note:s:- C=convert.decoder:s:" + hexStr("trackaddict") + ",convert.encoder:s:" + hexStr("laptimer") + ",convert.track:s:" + hexStr("FromJSON") +
 			",convert.note:s:" + hexStr("a note") + ",convert.compress:b:" + hexStr("true") + " H=~ io=so cf=json in=" + hexStr("Time,UTC Time,Lap,GPS_Update,Latitude,Longitude\n0.010,1653983971.010,0,1,50.1,-0.7\n"),
